@@ -194,6 +194,9 @@ class Gen:
     }
 
     def _rel(self):
+        rb = self.cfg.get("rel_bias")
+        if rb and self.r.random() < 0.6:
+            return self.r.choice(rb)
         return self.r.choice(["library", "definition", "port", "port", "cable", "cable", "instance", "instance",
                               "ipin", "ipin", "wire", "wire"])
 
